@@ -3,8 +3,8 @@
 # applies, builds, existing suite passes, demo passes without and fails with the change.
 set -u
 ID=$1; X=$2
-SRC=/tmp/mutout/$ID/$X
-WT=/tmp/wt-confirm-$ID-$X
+SRC=${MUT:-/tmp/mutout}/$ID/$X
+WT=/tmp/wt-confirm-$ID-$X-$$
 export GOPROXY=off GOFLAGS=-mod=mod
 P=$SRC/patch.diff; [ -f $SRC/patch_rebased.diff ] && P=$SRC/patch_rebased.diff
 git -C /repo worktree remove --force $WT 2>/dev/null
